@@ -169,10 +169,15 @@ func (fv *FuncVerifier) frameAllows() []frameAllow {
 		return fv.allows
 	}
 	fv.allowsDone = true
-	fc := fv.fc
+	fv.allows = fv.allowsFor(fv.fc.Modifies)
+	return fv.allows
+}
+
+// allowsFor evaluates a list of location expressions (modifies / writes clause) in the pre-state.
+func (fv *FuncVerifier) allowsFor(clauses []Clause) []frameAllow {
 	env := fv.preEnv(fv.pre)
 	var allows []frameAllow
-	for _, m := range fc.Modifies {
+	for _, m := range clauses {
 		switch x := m.E.(type) {
 		case *SField:
 			base := env.eval(x.X)
@@ -225,7 +230,6 @@ func (fv *FuncVerifier) frameAllows() []frameAllow {
 			}
 		}
 	}
-	fv.allows = allows
 	return allows
 }
 
